@@ -1,12 +1,18 @@
 /-
-Brackets, part 12: the expression syntax `Ex` of the fragment with groups `( .. )` and nested expressions `{ .. }`,
-the induction over it (`ex_ok`), the end of the parse (`finish_U`), the parse-level theorem `parse_ex`, and the decidable
-recogniser `frag5`.
+The expression syntax `Ex` of the fragments with brackets, the induction over it (`ex_ok`), the end of the parse
+(`finish_U`), the parse-level theorem `parse_ex`, and the decidable recognisers (`fragF`).
 
-  operand ::= prefix* value | prefix* ( trivia* expr trivia* ) | prefix* { trivia* expr trivia* }
+  operand ::= prefix* value
+            | prefix* ( fill* expr gfill* )          -- inside ( ): separators are whitespace
+            | prefix* { fill* expr trivia* }         -- directly after { separators are dropped
+            | prefix* { fill* expr trivia* blank-line fill* }      -- trailing blank line: node unlinked again
   expr    ::= operand | expr trivia* binop trivia* operand | expr suffix
+            | expr gfill+ operand                    -- implicit list (flag L)
+            | expr trivia* separator fill* operand   -- outside of ( ) (flag S)
+  fill = trivia or separator;  gfill = trivia, inside ( ) also separators.
+Flags: `L` implicit lists, `C` `,` / infix identifiers as binary operators, `S` separators.
 -/
-import Garnish.Lemmas.ParserB18
+import Garnish.Lemmas.ParserB27
 
 namespace Garnish.Spec
 open Garnish Garnish.Gen Garnish.Model.Parser
@@ -14,22 +20,40 @@ open Garnish Garnish.Gen Garnish.Model.Parser
 inductive Ex where
   | atom (pre : List PToken) (a : PToken)
   | br (pre : List PToken) (o : PToken) (wsA : List PToken) (e : Ex) (wsB : List PToken) (c : PToken)
+  | brT (pre : List PToken) (o : PToken) (wsA : List PToken) (e : Ex) (ws1 : List PToken) (t : PToken)
+      (ws2 : List PToken) (c : PToken)
   | bin (e : Ex) (ws1 : List PToken) (op : PToken) (ws2 : List PToken) (x : Ex)
   | suf (e : Ex) (s : PToken)
   | lst (e : Ex) (ws : List PToken) (x : Ex)
+  | sep (e : Ex) (ws1 : List PToken) (t : PToken) (ws2 : List PToken) (x : Ex)
+  | brC (pre : List PToken) (o : PToken) (wsA : List PToken) (e : Ex) (ws1 : List PToken) (k : PToken)
+      (wsB : List PToken) (c : PToken)
+  | lead (op : PToken) (ws : List PToken) (x : Ex)
+
+structure Fl where
+  L : Bool
+  C : Bool
+  S : Bool
+deriving DecidableEq, Repr
 
 namespace Ex
 
 def toks : Ex → List PToken
   | atom pre a => pre ++ [a]
   | br pre o wsA e wsB c => pre ++ (o :: (wsA ++ (e.toks ++ (wsB ++ [c]))))
+  | brT pre o wsA e ws1 t ws2 c => pre ++ (o :: (wsA ++ (e.toks ++ (ws1 ++ (t :: (ws2 ++ [c]))))))
   | bin e ws1 op ws2 x => e.toks ++ (ws1 ++ (op :: (ws2 ++ x.toks)))
   | suf e s => e.toks ++ [s]
   | lst e ws x => e.toks ++ (ws ++ x.toks)
+  | sep e ws1 t ws2 x => e.toks ++ (ws1 ++ (t :: (ws2 ++ x.toks)))
+  | brC pre o wsA e ws1 k wsB c => pre ++ (o :: (wsA ++ (e.toks ++ (ws1 ++ (k :: (wsB ++ [c]))))))
+  | lead op ws x => op :: (ws ++ x.toks)
 
 def isOpd : Ex → Bool
   | atom .. => true
   | br .. => true
+  | brT .. => true
+  | brC .. => true
   | _ => false
 
 def endsSuffix : Ex → Bool
@@ -39,32 +63,48 @@ def endsSuffix : Ex → Bool
 def closeMatches (o c : PToken) : Bool :=
   (o.type == .startGroup && c.type == .endGroup) || (o.type == .startExpression && c.type == .endExpression)
 
-/-- `,` and infix identifiers -/
-def isOptTok (t : PToken) : Bool := (getDefinition t.type).2 == .optionalBinaryLeftToRight
+/-- the bracket `o` opens a `( )` group -/
+def opensGroup (o : PToken) : Bool := (getDefinition o.type).1 == .group
 
-/-- well-formedness; `L`: implicit space lists allowed; `C`: `,` and infix identifiers allowed as binary operators -/
-def ok (L C : Bool) : Ex → Bool
-  | atom pre a => pre.all isPrefixTok && isAtom10 a
-  | br pre o wsA e wsB c =>
-    pre.all isPrefixTok && isOpenTok o && closeMatches o c && wsA.all isTriviaTok && e.ok L C && wsB.all isTriviaTok
-  | bin e ws1 op ws2 x =>
-    e.ok L C && ws1.all isTriviaTok && (isBinopTok op || (C && isOptTok op)) && ws2.all isTriviaTok && x.isOpd && x.ok L C
-  | suf e s => e.ok L C && isSuffixTok s
-  | lst e ws x =>
-    L && e.ok L C && !e.endsSuffix && ws.all isTriviaTok && ws.any (fun w => w.type == .whitespace) && x.isOpd && x.ok L C
+/-- well-formedness inside a frame (`inG`: the frame is a `( )` group) -/
+def ok (F : Fl) : Bool → Ex → Bool
+  | _, atom pre a => pre.all isPrefixTok && isAtom10 a
+  | _, br pre o wsA e wsB c =>
+    pre.all isPrefixTok && isOpenTok o && closeMatches o c && wsA.all (fun w => isTriviaTok w || (F.S && isSepTok w)) &&
+      e.ok F (opensGroup o) && wsB.all (isGFill (F.S && opensGroup o))
+  | _, brT pre o wsA e ws1 t ws2 c =>
+    F.S && !opensGroup o && pre.all isPrefixTok && isOpenTok o && closeMatches o c && wsA.all isFillTok &&
+      e.ok F false && ws1.all isTriviaTok && t.type == .subexpression && ws2.all isFillTok
+  | inG, bin e ws1 op ws2 x =>
+    e.ok F inG && ws1.all isTriviaTok && (isBinopTok op || (F.C && isOptTok op)) && ws2.all isTriviaTok && x.isOpd &&
+      x.ok F inG
+  | inG, suf e s => e.ok F inG && isSuffixTok s
+  | inG, lst e ws x =>
+    F.L && e.ok F inG && !e.endsSuffix && ws.all (isGFill (F.S && inG)) &&
+      ws.any (fun w => w.type == .whitespace || (F.S && inG && isSepTok w)) && x.isOpd && x.ok F inG
+  | inG, sep e ws1 t ws2 x =>
+    F.S && !inG && e.ok F inG && ws1.all isTriviaTok && isSepTok t && ws2.all isFillTok && x.isOpd && x.ok F inG
+  | _, brC pre o wsA e ws1 k wsB c =>
+    F.C && pre.all isPrefixTok && isOpenTok o && closeMatches o c && wsA.all (fun w => isTriviaTok w || (F.S && isSepTok w)) &&
+      e.ok F (opensGroup o) && ws1.all isTriviaTok && isCommaTok k && wsB.all isTriviaTok
+  | inG, lead op ws x => F.C && isOptTok op && ws.all isTriviaTok && x.isOpd && x.ok F inG
 
 theorem toks_ne : ∀ e : Ex, e.toks ≠ []
   | atom pre a => by simp [toks]
   | br pre o wsA e wsB c => by simp [toks]
+  | brT .. => by simp [toks]
   | bin e ws1 op ws2 x => by simp [toks]
   | suf e s => by simp [toks]
   | lst e ws x => by simp [toks, toks_ne e]
+  | sep e ws1 t ws2 x => by simp [toks]
+  | brC .. => by simp [toks]
+  | lead .. => by simp [toks]
 
 end Ex
 
-theorem bin3_of_ok {C : Bool} {op : PToken} (h : (isBinopTok op || (C && Ex.isOptTok op)) = true) : isBin3Tok op = true := by
+theorem bin3_of_ok {C : Bool} {op : PToken} (h : (isBinopTok op || (C && isOptTok op)) = true) : isBin3Tok op = true := by
   unfold isBin3Tok
-  unfold isBinopTok Ex.isOptTok at h
+  unfold isBinopTok isOptTok at h
   simp only [Bool.or_eq_true, Bool.and_eq_true] at h ⊢
   rcases h with h | ⟨_, h⟩
   · exact Or.inl h
@@ -78,56 +118,153 @@ theorem closeMatches_isCloseFor {o c : PToken} (h : Ex.closeMatches o c = true) 
   · exact Or.inl ⟨by rw [h1]; rfl, h2⟩
   · exact Or.inr ⟨by rw [h1]; rfl, h2⟩
 
+theorem fill_of_triv_or {S : Bool} {w : PToken} (h : (isTriviaTok w || (S && isSepTok w)) = true) : isFillTok w = true := by
+  unfold isFillTok
+  simp only [Bool.or_eq_true, Bool.and_eq_true] at h ⊢
+  rcases h with h | ⟨_, h⟩
+  · exact Or.inl h
+  · exact Or.inr h
+
+theorem gfill_mono {a b : Bool} {w : PToken} (hab : a = true → b = true) (h : isGFill a w = true) : isGFill b w = true := by
+  unfold isGFill at h ⊢
+  simp only [Bool.or_eq_true, Bool.and_eq_true] at h ⊢
+  rcases h with h | ⟨h1, h2⟩
+  · exact Or.inl h
+  · exact Or.inr ⟨hab h1, h2⟩
+
+/-- the first token of an operand is no filler, separator or closer -/
+theorem opd_head_class {t : PToken} (h : isPrefixTok t = true ∨ isAtom10 t = true ∨ isOpenTok t = true) (r : List PToken) :
+    closerFollows (t :: r) = false := by
+  have : isFiller t.type = false ∧ isSeparator t.type = false ∧ isCloser t.type = false := by
+    rcases h with h | h | h
+    · unfold isPrefixTok at h; revert h; cases t.type <;> simp [getDefinition, isFiller, isSeparator, isCloser]
+    · unfold isAtom10 at h; revert h; cases t.type <;> simp [getDefinition, isFiller, isSeparator, isCloser, priority]
+    · unfold isOpenTok at h; revert h; cases t.type <;> simp [isFiller, isSeparator, isCloser]
+  simp [closerFollows, this.1, this.2.1, this.2.2]
+
+/-- the head token of an operand -/
+theorem opd_head {F : Fl} {inG : Bool} : ∀ x : Ex, x.ok F inG = true → x.isOpd = true →
+    ∃ t r, x.toks = t :: r ∧ (((isPrefixTok t = true ∨ isOpenTok t = true) ∧ r ≠ []) ∨ (isAtom10 t = true ∧ r = []))
+  | .atom [] a, h, _ => by
+    simp only [Ex.ok, Bool.and_eq_true, List.all_eq_true] at h
+    exact ⟨a, [], rfl, Or.inr ⟨h.2, rfl⟩⟩
+  | .atom (p :: ps) a, h, _ => by
+    simp only [Ex.ok, Bool.and_eq_true, List.all_eq_true] at h
+    exact ⟨p, ps ++ [a], rfl, Or.inl ⟨Or.inl (h.1 p (List.mem_cons_self ..)), by simp⟩⟩
+  | .br [] o wsA e wsB c, h, _ => by
+    simp only [Ex.ok, Bool.and_eq_true, List.all_eq_true] at h
+    exact ⟨o, _, rfl, Or.inl ⟨Or.inr h.1.1.1.1.2, by simp⟩⟩
+  | .br (p :: ps) o wsA e wsB c, h, _ => by
+    simp only [Ex.ok, Bool.and_eq_true, List.all_eq_true] at h
+    exact ⟨p, _, rfl, Or.inl ⟨Or.inl (h.1.1.1.1.1 p (List.mem_cons_self ..)), by simp⟩⟩
+  | .brT [] o wsA e ws1 t ws2 c, h, _ => by
+    simp only [Ex.ok, Bool.and_eq_true, List.all_eq_true] at h
+    exact ⟨o, _, rfl, Or.inl ⟨Or.inr h.1.1.1.1.1.1.2, by simp⟩⟩
+  | .brT (p :: ps) o wsA e ws1 t ws2 c, h, _ => by
+    simp only [Ex.ok, Bool.and_eq_true, List.all_eq_true] at h
+    exact ⟨p, _, rfl, Or.inl ⟨Or.inl (h.1.1.1.1.1.1.1.2 p (List.mem_cons_self ..)), by simp⟩⟩
+  | .brC [] o wsA e ws1 k wsB c, h, _ => by
+    simp only [Ex.ok, Bool.and_eq_true, List.all_eq_true] at h
+    exact ⟨o, _, rfl, Or.inl ⟨Or.inr h.1.1.1.1.1.1.2, by simp⟩⟩
+  | .brC (p :: ps) o wsA e ws1 k wsB c, h, _ => by
+    simp only [Ex.ok, Bool.and_eq_true, List.all_eq_true] at h
+    exact ⟨p, _, rfl, Or.inl ⟨Or.inl (h.1.1.1.1.1.1.1.2 p (List.mem_cons_self ..)), by simp⟩⟩
+  | .bin _ _ _ _ _, _, hc => by simp [Ex.isOpd] at hc
+  | .suf _ _, _, hc => by simp [Ex.isOpd] at hc
+  | .lst _ _ _, _, hc => by simp [Ex.isOpd] at hc
+  | .sep _ _ _ _ _, _, hc => by simp [Ex.isOpd] at hc
+  | .lead _ _ _, _, hc => by simp [Ex.isOpd] at hc
+
 /-- an operand in list mode -/
-theorem listOpd_of_ex {L C : Bool} : ∀ x : Ex, x.ok L C = true → x.isOpd = true → OpdOK x.toks → ListOpdOK x.toks
-  | .atom [] a, h, _, _ => by
-    simp only [Ex.ok, Bool.and_eq_true, List.all_eq_true] at h
-    exact listOpd_value a h.2
-  | .atom (p :: ps) a, h, _, hx => by
-    simp only [Ex.ok, Bool.and_eq_true, List.all_eq_true] at h
-    exact listOpd_po (t := p) (r := ps ++ [a]) hx (by simp) (Or.inl (h.1 p (List.mem_cons_self ..)))
-  | .br [] o wsA e wsB c, h, _, hx => by
-    simp only [Ex.ok, Bool.and_eq_true, List.all_eq_true] at h
-    exact listOpd_po (t := o) (r := wsA ++ (e.toks ++ (wsB ++ [c]))) hx (by simp) (Or.inr h.1.1.1.1.2)
-  | .br (p :: ps) o wsA e wsB c, h, _, hx => by
-    simp only [Ex.ok, Bool.and_eq_true, List.all_eq_true] at h
-    exact listOpd_po (t := p) (r := ps ++ (o :: (wsA ++ (e.toks ++ (wsB ++ [c]))))) hx (by simp)
-      (Or.inl (h.1.1.1.1.1 p (List.mem_cons_self ..)))
-  | .bin .., _, hc, _ => by simp [Ex.isOpd] at hc
-  | .suf .., _, hc, _ => by simp [Ex.isOpd] at hc
-  | .lst .., _, hc, _ => by simp [Ex.isOpd] at hc
+theorem listOpd_of_ex {F : Fl} {inG : Bool} (x : Ex) (h : x.ok F inG = true) (ho : x.isOpd = true) (hx : OpdOK x.toks) :
+    ListOpdOK x.toks := by
+  obtain ⟨t, r, htr, hcl⟩ := opd_head x h ho
+  rw [htr] at hx ⊢
+  rcases hcl with ⟨hcl, hr⟩ | ⟨hcl, hr⟩
+  · exact listOpd_po hx hr hcl
+  · subst hr; exact listOpd_value t hcl
 
 /-- **the induction over the expression syntax** -/
-theorem ex_ok {L C : Bool} : ∀ e : Ex, e.ok L C = true → ExprOK e.toks e.endsSuffix ∧ (e.isOpd = true → OpdOK e.toks)
-  | .atom pre a, h => by
+theorem ex_ok {F : Fl} : ∀ (e : Ex) (inG : Bool), e.ok F inG = true →
+    ExprOK inG e.toks e.endsSuffix ∧ (e.isOpd = true → OpdOK e.toks)
+  | .atom pre a, _, h => by
     simp only [Ex.ok, Bool.and_eq_true, List.all_eq_true] at h
     have := opd_atom pre a h.1 h.2
     exact ⟨expr_first this, fun _ => this⟩
-  | .br pre o wsA e wsB c, h => by
+  | .br pre o wsA e wsB c, _, h => by
     simp only [Ex.ok, Bool.and_eq_true, List.all_eq_true] at h
     obtain ⟨⟨⟨⟨⟨h1, h2⟩, h3⟩, h4⟩, h5⟩, h6⟩ := h
-    have ih := (ex_ok e h5).1
-    have := opd_bracket ih pre o c wsA wsB h1 h2 (closeMatches_isCloseFor h3) h4 h6 e.toks_ne
+    have ih := (ex_ok e (Ex.opensGroup o) h5).1
+    have := opd_bracket pre o c wsA wsB ih h1 h2 (closeMatches_isCloseFor h3) (fun w hw => fill_of_triv_or (h4 w hw))
+      (fun w hw => gfill_mono (fun hh => by simp only [Bool.and_eq_true] at hh; exact hh.2) (h6 w hw)) e.toks_ne
     exact ⟨expr_first this, fun _ => this⟩
-  | .bin e ws1 op ws2 x, h => by
+  | .brT pre o wsA e ws1 t ws2 c, _, h => by
+    simp only [Ex.ok, Bool.and_eq_true, List.all_eq_true, Bool.not_eq_true', beq_iff_eq] at h
+    obtain ⟨⟨⟨⟨⟨⟨⟨⟨⟨_, h0⟩, h1⟩, h2⟩, h3⟩, h4⟩, h5⟩, h6⟩, h7⟩, h8⟩ := h
+    have ih := (ex_ok e false h5).1
+    have := opd_bracket_trail pre o c t wsA ws1 ws2 h0 ih h1 h2 (closeMatches_isCloseFor h3) h4 h6 h7 h8 e.toks_ne
+    exact ⟨expr_first this, fun _ => this⟩
+  | .bin e ws1 op ws2 x, inG, h => by
     simp only [Ex.ok, Bool.and_eq_true, List.all_eq_true] at h
     obtain ⟨⟨⟨⟨⟨h1, h2⟩, h3⟩, h4⟩, h5⟩, h6⟩ := h
-    have ihe := (ex_ok e h1).1
-    have ihx := (ex_ok x h6).2 h5
+    have ihe := (ex_ok e inG h1).1
+    have ihx := (ex_ok x inG h6).2 h5
     exact ⟨expr_bin ihe ihx (bin3_of_ok h3) h2 h4 x.toks_ne, fun hc => by simp [Ex.isOpd] at hc⟩
-  | .suf e s, h => by
+  | .suf e s, inG, h => by
     simp only [Ex.ok, Bool.and_eq_true] at h
-    have ihe := (ex_ok e h.1).1
+    have ihe := (ex_ok e inG h.1).1
     exact ⟨expr_suf ihe s h.2, fun hc => by simp [Ex.isOpd] at hc⟩
-  | .lst e ws x, h => by
-    simp only [Ex.ok, Bool.and_eq_true, List.all_eq_true, List.any_eq_true, Bool.not_eq_true', beq_iff_eq] at h
+  | .lst e ws x, inG, h => by
+    simp only [Ex.ok, Bool.and_eq_true, List.all_eq_true, List.any_eq_true, Bool.not_eq_true'] at h
     obtain ⟨⟨⟨⟨⟨⟨_, h1⟩, h2⟩, h3⟩, h4⟩, h5⟩, h6⟩ := h
-    have ihe := (ex_ok e h1).1
+    have ihe := (ex_ok e inG h1).1
     rw [h2] at ihe
-    have ihx := (ex_ok x h6).2 h5
-    exact ⟨expr_list ihe (listOpd_of_ex x h6 h5 ihx) h3 h4, fun hc => by simp [Ex.isOpd] at hc⟩
+    have ihx := (ex_ok x inG h6).2 h5
+    refine ⟨expr_list ihe (listOpd_of_ex x h6 h5 ihx)
+      (fun w hw => gfill_mono (fun hh => by simp only [Bool.and_eq_true] at hh; exact hh.2) (h3 w hw)) ?_,
+      fun hc => by simp [Ex.isOpd] at hc⟩
+    obtain ⟨w, hw, hwt⟩ := h4
+    refine ⟨w, hw, ?_⟩
+    unfold setsList
+    simp only [Bool.or_eq_true, Bool.and_eq_true, beq_iff_eq] at hwt ⊢
+    rcases hwt with hwt | ⟨_, hwt⟩
+    · exact Or.inl hwt
+    · exact Or.inr hwt
+  | .sep e ws1 t ws2 x, inG, h => by
+    simp only [Ex.ok, Bool.and_eq_true, List.all_eq_true, Bool.not_eq_true'] at h
+    obtain ⟨⟨⟨⟨⟨⟨⟨_, h0⟩, h1⟩, h2⟩, h3⟩, h4⟩, h5⟩, h6⟩ := h
+    subst h0
+    have ihe := (ex_ok e false h1).1
+    have ihx := (ex_ok x false h6).2 h5
+    obtain ⟨th, tr, htr, hcl⟩ := opd_head x h6 h5
+    have hcl' : isPrefixTok th = true ∨ isAtom10 th = true ∨ isOpenTok th = true := by
+      rcases hcl with ⟨h | h, _⟩ | ⟨h, _⟩
+      · exact Or.inl h
+      · exact Or.inr (Or.inr h)
+      · exact Or.inr (Or.inl h)
+    exact ⟨expr_sep ihe ihx h3 h2 h4 x.toks_ne (fun r => by rw [htr]; exact opd_head_class hcl' _),
+      fun hc => by simp [Ex.isOpd] at hc⟩
+  | .brC pre o wsA e ws1 k wsB c, _, h => by
+    simp only [Ex.ok, Bool.and_eq_true, List.all_eq_true] at h
+    obtain ⟨⟨⟨⟨⟨⟨⟨⟨_, h1⟩, h2⟩, h3⟩, h4⟩, h5⟩, h6⟩, h7⟩, h8⟩ := h
+    have ih := (ex_ok e (Ex.opensGroup o) h5).1
+    have := opd_bracket_comma pre o c k wsA ws1 wsB ih h1 h2 (closeMatches_isCloseFor h3)
+      (fun w hw => fill_of_triv_or (h4 w hw)) h6 h7 h8 e.toks_ne
+    exact ⟨expr_first this, fun _ => this⟩
+  | .lead op ws x, inG, h => by
+    simp only [Ex.ok, Bool.and_eq_true, List.all_eq_true] at h
+    obtain ⟨⟨⟨⟨_, h1⟩, h2⟩, h3⟩, h4⟩ := h
+    have ihx := (ex_ok x inG h4).2 h3
+    exact ⟨expr_lead ihx h1 h2 x.toks_ne, fun hc => by simp [Ex.isOpd] at hc⟩
 
 /-! ### first and last token -/
+
+theorem opt_not_trimmable {op : PToken} (h : isOptTok op = true) : isTrimmable op = false := by
+  unfold isOptTok at h
+  unfold isTrimmable
+  revert h
+  cases op.type <;> simp [getDefinition]
+
 
 theorem open_not_trimmable {o : PToken} (h : isOpenTok o = true) : isTrimmable o = false := by
   unfold isOpenTok at h
@@ -141,50 +278,83 @@ theorem close_not_trimmable {o c : PToken} (h : Ex.closeMatches o c = true) : is
   simp only [Bool.or_eq_true, Bool.and_eq_true, beq_iff_eq] at h
   rcases h with ⟨_, h⟩ | ⟨_, h⟩ <;> rw [h] <;> rfl
 
-theorem ex_head {L C : Bool} : ∀ e : Ex, e.ok L C = true → ∃ t rest, e.toks = t :: rest ∧ isTrimmable t = false
-  | .atom pre a, h => by
+theorem ex_head {F : Fl} : ∀ (e : Ex) (inG : Bool), e.ok F inG = true → ∃ t rest, e.toks = t :: rest ∧ isTrimmable t = false
+  | .atom pre a, _, h => by
     simp only [Ex.ok, Bool.and_eq_true, List.all_eq_true] at h
     cases pre with
     | nil => exact ⟨a, [], rfl, atom10_not_trimmable h.2⟩
     | cons p ps => exact ⟨p, ps ++ [a], rfl, prefix_not_trimmable (h.1 p (List.mem_cons_self ..))⟩
-  | .br pre o wsA e wsB c, h => by
+  | .br pre o wsA e wsB c, _, h => by
     simp only [Ex.ok, Bool.and_eq_true, List.all_eq_true] at h
     obtain ⟨⟨⟨⟨⟨h1, h2⟩, h3⟩, h4⟩, h5⟩, h6⟩ := h
     cases pre with
     | nil => exact ⟨o, _, rfl, open_not_trimmable h2⟩
     | cons p ps => exact ⟨p, _, rfl, prefix_not_trimmable (h1 p (List.mem_cons_self ..))⟩
-  | .bin e ws1 op ws2 x, h => by
+  | .brT pre o wsA e ws1 t ws2 c, _, h => by
     simp only [Ex.ok, Bool.and_eq_true, List.all_eq_true] at h
-    obtain ⟨t, rest, h1, h2⟩ := ex_head e h.1.1.1.1.1
+    cases pre with
+    | nil => exact ⟨o, _, rfl, open_not_trimmable h.1.1.1.1.1.1.2⟩
+    | cons p ps => exact ⟨p, _, rfl, prefix_not_trimmable (h.1.1.1.1.1.1.1.2 p (List.mem_cons_self ..))⟩
+  | .bin e ws1 op ws2 x, inG, h => by
+    simp only [Ex.ok, Bool.and_eq_true, List.all_eq_true] at h
+    obtain ⟨t, rest, h1, h2⟩ := ex_head e inG h.1.1.1.1.1
     exact ⟨t, rest ++ (ws1 ++ (op :: (ws2 ++ x.toks))), by simp [Ex.toks, h1], h2⟩
-  | .suf e s, h => by
+  | .suf e s, inG, h => by
     simp only [Ex.ok, Bool.and_eq_true] at h
-    obtain ⟨t, rest, h1, h2⟩ := ex_head e h.1
+    obtain ⟨t, rest, h1, h2⟩ := ex_head e inG h.1
     exact ⟨t, rest ++ [s], by simp [Ex.toks, h1], h2⟩
-  | .lst e ws x, h => by
+  | .lst e ws x, inG, h => by
     simp only [Ex.ok, Bool.and_eq_true] at h
-    obtain ⟨t, rest, h1, h2⟩ := ex_head e h.1.1.1.1.1.2
+    obtain ⟨t, rest, h1, h2⟩ := ex_head e inG h.1.1.1.1.1.2
     exact ⟨t, rest ++ (ws ++ x.toks), by simp [Ex.toks, h1], h2⟩
+  | .sep e ws1 t ws2 x, inG, h => by
+    simp only [Ex.ok, Bool.and_eq_true] at h
+    obtain ⟨t', rest, h1, h2⟩ := ex_head e inG h.1.1.1.1.1.2
+    exact ⟨t', rest ++ (ws1 ++ (t :: (ws2 ++ x.toks))), by simp [Ex.toks, h1], h2⟩
+  | .brC pre o wsA e ws1 k wsB c, _, h => by
+    simp only [Ex.ok, Bool.and_eq_true, List.all_eq_true] at h
+    cases pre with
+    | nil => exact ⟨o, _, rfl, open_not_trimmable h.1.1.1.1.1.1.2⟩
+    | cons p ps => exact ⟨p, _, rfl, prefix_not_trimmable (h.1.1.1.1.1.1.1.2 p (List.mem_cons_self ..))⟩
+  | .lead op ws x, _, h => by
+    simp only [Ex.ok, Bool.and_eq_true] at h
+    exact ⟨op, _, rfl, opt_not_trimmable h.1.1.1.2⟩
 
-theorem ex_last {L C : Bool} : ∀ e : Ex, e.ok L C = true → ∃ init t, e.toks = init ++ [t] ∧ isTrimmable t = false
-  | .atom pre a, h => by
+theorem ex_last {F : Fl} : ∀ (e : Ex) (inG : Bool), e.ok F inG = true → ∃ init t, e.toks = init ++ [t] ∧ isTrimmable t = false
+  | .atom pre a, _, h => by
     simp only [Ex.ok, Bool.and_eq_true, List.all_eq_true] at h
     exact ⟨pre, a, rfl, atom10_not_trimmable h.2⟩
-  | .br pre o wsA e wsB c, h => by
+  | .br pre o wsA e wsB c, _, h => by
     simp only [Ex.ok, Bool.and_eq_true, List.all_eq_true] at h
     obtain ⟨⟨⟨⟨⟨h1, h2⟩, h3⟩, h4⟩, h5⟩, h6⟩ := h
     exact ⟨pre ++ (o :: (wsA ++ (e.toks ++ wsB))), c, by simp [Ex.toks], close_not_trimmable h3⟩
-  | .bin e ws1 op ws2 x, h => by
+  | .brT pre o wsA e ws1 t ws2 c, _, h => by
     simp only [Ex.ok, Bool.and_eq_true, List.all_eq_true] at h
-    obtain ⟨init, t, h1, h2⟩ := ex_last x h.2
+    exact ⟨pre ++ (o :: (wsA ++ (e.toks ++ (ws1 ++ (t :: ws2))))), c, by simp [Ex.toks],
+      close_not_trimmable h.1.1.1.1.1.2⟩
+  | .bin e ws1 op ws2 x, inG, h => by
+    simp only [Ex.ok, Bool.and_eq_true, List.all_eq_true] at h
+    obtain ⟨init, t, h1, h2⟩ := ex_last x inG h.2
     exact ⟨e.toks ++ (ws1 ++ (op :: (ws2 ++ init))), t, by simp [Ex.toks, h1], h2⟩
-  | .suf e s, h => by
+  | .suf e s, _, h => by
     simp only [Ex.ok, Bool.and_eq_true] at h
     exact ⟨e.toks, s, rfl, suffix_not_trimmable h.2⟩
-  | .lst e ws x, h => by
+  | .lst e ws x, inG, h => by
     simp only [Ex.ok, Bool.and_eq_true] at h
-    obtain ⟨init, t, h1, h2⟩ := ex_last x h.2
+    obtain ⟨init, t, h1, h2⟩ := ex_last x inG h.2
     exact ⟨e.toks ++ (ws ++ init), t, by simp [Ex.toks, h1], h2⟩
+  | .sep e ws1 t ws2 x, inG, h => by
+    simp only [Ex.ok, Bool.and_eq_true] at h
+    obtain ⟨init, t', h1, h2⟩ := ex_last x inG h.2
+    exact ⟨e.toks ++ (ws1 ++ (t :: (ws2 ++ init))), t', by simp [Ex.toks, h1], h2⟩
+  | .brC pre o wsA e ws1 k wsB c, _, h => by
+    simp only [Ex.ok, Bool.and_eq_true, List.all_eq_true] at h
+    exact ⟨pre ++ (o :: (wsA ++ (e.toks ++ (ws1 ++ (k :: wsB))))), c, by simp [Ex.toks],
+      close_not_trimmable h.1.1.1.1.1.2⟩
+  | .lead op ws x, inG, h => by
+    simp only [Ex.ok, Bool.and_eq_true] at h
+    obtain ⟨init, t', h1, h2⟩ := ex_last x inG h.2
+    exact ⟨op :: (ws ++ init), t', by simp [Ex.toks, h1], h2⟩
 
 /-! ### the end of the parse -/
 
@@ -196,11 +366,9 @@ theorem UInv.comp_none {st : PState} {ug p : Option Nat} {base : Nat} {E : Tree}
 theorem finish_U {stF : PState} {E : Tree} {re cb : Nat} (hinv : UInv stF none none 0 E re cb)
     (hgs : stF.groupStack = #[]) :
     ∃ r, finish stF = .ok r ∧ toTree r = some E ∧ r.nodes = stF.nodes := by
-  have hin : E.inorder = List.range stF.nodes.size := by
-    rw [hinv.n.inord, List.range_eq_range']; simp
   have hpos := hinv.n.pos
-  have hnd : E.inorder.Nodup := by rw [hin]; exact List.nodup_range
-  have h0mem : 0 ∈ E.inorder := by rw [hin]; exact List.mem_range.mpr hpos
+  have hnd : E.inorder.Nodup := hinv.n.inord.nodup
+  have h0mem : 0 ∈ E.inorder := hinv.n.first
   have hsome : ∃ nd0, stF.nodes[0]? = some nd0 := by
     cases hnd0 : stF.nodes[0]? with
     | none => rw [Array.getElem?_eq_none_iff] at hnd0; omega
@@ -226,22 +394,40 @@ theorem finish_U {stF : PState} {E : Tree} {re cb : Nat} (hinv : UInv stF none n
 theorem openB_init : OpenB PState.init none :=
   ⟨rfl, rfl, rfl, rfl, rfl, Or.inl ⟨rfl, rfl⟩, Or.inl rfl⟩
 
-/-- **stage 5, syntax form**: for an expression of the fragment with groups and nested expressions the model of `parse`
-    accepts, the result is a proper tree, and it is the reference tree -/
-theorem parse_ex {L C : Bool} (e : Ex) (hok : e.ok L C = true) (hnum : NumberedFrom 0 e.toks) :
-    ∃ r t, parse e.toks = .ok r ∧ toTree r = some t ∧ refParse Table.gen e.toks = .ok (toRG (dfOf r.nodes) t) := by
+/-- on an expression of the fragment nothing is trimmed -/
+theorem ex_trim {F : Fl} (e : Ex) (hok : e.ok F false = true) :
+    trimTokens e.toks = .ok e.toks ∧ trimStart e.toks = 0 ∧ trimStart e.toks.reverse = 0 := by
   have hne := e.toks_ne
-  obtain ⟨th, trest, hth, hthn⟩ := ex_head e hok
-  obtain ⟨tinit, tl, htl, htln⟩ := ex_last e hok
+  obtain ⟨th, trest, hth, hthn⟩ := ex_head e false hok
+  obtain ⟨tinit, tl, htl, htln⟩ := ex_last e false hok
   have hhead : isTrimmable (e.toks.head hne) = false := by
     have : e.toks.head hne = th := by simp [hth]
     rw [this]; exact hthn
   have hlast : isTrimmable (e.toks.getLast hne) = false := by
     have : e.toks.getLast hne = tl := by simp [htl]
     rw [this]; exact htln
-  obtain ⟨htrim, hts, htr⟩ := trim_id _ hne hhead hlast
+  exact trim_id _ hne hhead hlast
+
+/-- on an expression of the fragment `refParse` trims nothing -/
+theorem refParse_ex {F : Fl} (e : Ex) (hok : e.ok F false = true) :
+    refParse Table.gen e.toks = refLoop Table.gen Frame.top [] 0 e.toks := by
+  have hne := e.toks_ne
+  obtain ⟨_, hts, htr⟩ := ex_trim e hok
+  unfold refParse
+  simp only [hts, htr]
+  have hlen : ¬ (0 ≥ e.toks.length) := by
+    have := List.length_pos_iff.mpr hne; omega
+  simp only [List.drop_zero, Nat.sub_zero, List.take_length, hlen, if_false]
+
+/-- **syntax form of the stage theorems**: for an expression of the fragment the model of `parse` accepts, the result is a
+    proper tree, and it is the reference tree -/
+theorem parse_ex {F : Fl} (e : Ex) (hok : e.ok F false = true) (hnum : NumberedFrom 0 e.toks) :
+    ∃ r t, parse e.toks = .ok r ∧ toTree r = some t ∧ refParse Table.gen e.toks = .ok (toRG (dfOf r.nodes) t) := by
+  have hne := e.toks_ne
+  obtain ⟨htrim, _, _⟩ := ex_trim e hok
   obtain ⟨st1, E, re, cb, hloop, hinv, hgs, hcg, _, _, _, href⟩ :=
-    (ex_ok e hok).1 PState.init none none 0 openB_init (.top rfl rfl) (by intro i nd h; simp [PState.init] at h) rfl 0 hnum []
+    (ex_ok e false hok).1 PState.init none none 0 openB_init (.top rfl rfl) (by intro i nd h; simp [PState.init] at h) rfl
+      rfl (Or.inl rfl) 0 hnum []
   simp only [List.append_nil] at hloop
   obtain ⟨r, hr, ht, hn⟩ := finish_U hinv hgs
   refine ⟨r, E, ?_, ht, ?_⟩
@@ -251,46 +437,38 @@ theorem parse_ex {L C : Bool} (e : Ex) (hok : e.ok L C = true) (hnum : NumberedF
       | nil => exact absurd h hne
       | cons _ _ => rfl
     simp only [Outcome.bind, he, Bool.false_eq_true, if_false, hloop, loop, hr]
-  · have href0 : refParse Table.gen e.toks = refLoop Table.gen Frame.top [] 0 e.toks := by
-      unfold refParse
-      simp only [hts, htr]
-      have hlen : ¬ (0 ≥ e.toks.length) := by
-        have := List.length_pos_iff.mpr hne; omega
-      simp only [List.drop_zero, Nat.sub_zero, List.take_length, hlen, if_false]
-    have := href Frame.top [] [] rfl rfl
+  · have := href Frame.top [] [] rfl rfl rfl
     simp only [List.append_nil] at this
-    rw [href0, this, hn]
+    rw [refParse_ex e hok, this, hn]
     unfold refLoop
     cases e.endsSuffix <;> simp
-
-/-- on an expression of the fragment `refParse` trims nothing -/
-theorem refParse_ex {L C : Bool} (e : Ex) (hok : e.ok L C = true) :
-    refParse Table.gen e.toks = refLoop Table.gen Frame.top [] 0 e.toks := by
-  have hne := e.toks_ne
-  obtain ⟨th, trest, hth, hthn⟩ := ex_head e hok
-  obtain ⟨tinit, tl, htl, htln⟩ := ex_last e hok
-  have hhead : isTrimmable (e.toks.head hne) = false := by
-    have : e.toks.head hne = th := by simp [hth]
-    rw [this]; exact hthn
-  have hlast : isTrimmable (e.toks.getLast hne) = false := by
-    have : e.toks.getLast hne = tl := by simp [htl]
-    rw [this]; exact htln
-  obtain ⟨_, hts, htr⟩ := trim_id _ hne hhead hlast
-  unfold refParse
-  simp only [hts, htr]
-  have hlen : ¬ (0 ≥ e.toks.length) := by
-    have := List.length_pos_iff.mpr hne; omega
-  simp only [List.drop_zero, Nat.sub_zero, List.take_length, hlen, if_false]
 
 /-! ### decidable recogniser -/
 
 inductive PMode where
   | opd
-  | tail (e : Ex)
+  | tail (e : Ex) (inG : Bool)
+  | expr (inG : Bool)
+
+def isCloserTok (t : PToken) : Bool :=
+  t.type == .endGroup || t.type == .endExpression || t.type == .endSideEffect
 
 /-- recursive-descent recogniser with fuel: returns the syntax tree and the unconsumed tokens -/
-def parseG (L C : Bool) : Nat → PMode → List PToken → Option (Ex × List PToken)
+def parseG (F : Fl) : Nat → PMode → List PToken → Option (Ex × List PToken)
   | 0, _, _ => none
+  | fuel + 1, .expr inG, toks =>
+    match toks with
+    | [] => none
+    | t :: r =>
+      if F.C && isOptTok t then
+        let ws := r.takeWhile isTriviaTok
+        match parseG F fuel .opd (r.dropWhile isTriviaTok) with
+        | none => none
+        | some (x, r2) => parseG F fuel (.tail (.lead t ws x) inG) r2
+      else
+        match parseG F fuel .opd toks with
+        | none => none
+        | some (x, r2) => parseG F fuel (.tail x inG) r2
   | fuel + 1, .opd, toks =>
     let pre := toks.takeWhile isPrefixTok
     match toks.dropWhile isPrefixTok with
@@ -298,84 +476,96 @@ def parseG (L C : Bool) : Nat → PMode → List PToken → Option (Ex × List P
     | a :: r =>
       if isAtom10 a then some (.atom pre a, r)
       else if isOpenTok a then
-        let wsA := r.takeWhile isTriviaTok
-        match parseG L C fuel .opd (r.dropWhile isTriviaTok) with
+        let fillA := fun w => isTriviaTok w || (F.S && isSepTok w)
+        let wsA := r.takeWhile fillA
+        match parseG F fuel (.expr (Ex.opensGroup a)) (r.dropWhile fillA) with
         | none => none
-        | some (x, r2) =>
-          match parseG L C fuel (.tail x) r2 with
-          | none => none
-          | some (e, r3) =>
-            let wsB := r3.takeWhile isTriviaTok
-            match r3.dropWhile isTriviaTok with
-            | [] => none
-            | c :: r5 => if Ex.closeMatches a c then some (.br pre a wsA e wsB c, r5) else none
+        | some (e, r3) =>
+          let fillB := isGFill (F.S && Ex.opensGroup a)
+          let wsB := r3.takeWhile fillB
+          match r3.dropWhile fillB with
+          | [] => none
+          | c :: r5 =>
+            if Ex.closeMatches a c then some (.br pre a wsA e wsB c, r5)
+            else if F.S && !Ex.opensGroup a && c.type == .subexpression then
+              let ws2 := r5.takeWhile isFillTok
+              match r5.dropWhile isFillTok with
+              | [] => none
+              | c2 :: r6 => if Ex.closeMatches a c2 then some (.brT pre a wsA e wsB c ws2 c2, r6) else none
+            else if F.C && isCommaTok c then
+              let wsC := r5.takeWhile isTriviaTok
+              match r5.dropWhile isTriviaTok with
+              | [] => none
+              | c2 :: r6 => if Ex.closeMatches a c2 then some (.brC pre a wsA e wsB c wsC c2, r6) else none
+            else none
       else none
-  | fuel + 1, .tail e, toks =>
-    let ws := toks.takeWhile isTriviaTok
-    match toks.dropWhile isTriviaTok with
+  | fuel + 1, .tail e inG, toks =>
+    let fillG := isGFill (F.S && inG)
+    let ws := toks.takeWhile fillG
+    match toks.dropWhile fillG with
     | [] => some (e, toks)
     | t :: r1 =>
-      if isBinopTok t || (C && Ex.isOptTok t) then
+      if isBinopTok t || (F.C && isOptTok t) then
         let ws2 := r1.takeWhile isTriviaTok
-        match parseG L C fuel .opd (r1.dropWhile isTriviaTok) with
-        | none => none
-        | some (x, r3) => parseG L C fuel (.tail (.bin e ws t ws2 x)) r3
-      else if ws.isEmpty && isSuffixTok t then parseG L C fuel (.tail (.suf e t)) r1
-      else if L && !e.endsSuffix && ws.any (fun w => w.type == .whitespace) &&
+        match r1.dropWhile isTriviaTok with
+        | [] => some (e, toks)
+        | h :: r2 =>
+          if isCloserTok h then some (e, toks)
+          else
+            match parseG F fuel .opd (h :: r2) with
+            | none => none
+            | some (x, r3) => parseG F fuel (.tail (.bin e ws t ws2 x) inG) r3
+      else if ws.isEmpty && isSuffixTok t then parseG F fuel (.tail (.suf e t) inG) r1
+      else if F.L && !e.endsSuffix && ws.any (fun w => w.type == .whitespace || (F.S && inG && isSepTok w)) &&
           (isPrefixTok t || isAtom10 t || isOpenTok t) then
-        match parseG L C fuel .opd (t :: r1) with
+        match parseG F fuel .opd (t :: r1) with
         | none => none
-        | some (x, r3) => parseG L C fuel (.tail (.lst e ws x)) r3
+        | some (x, r3) => parseG F fuel (.tail (.lst e ws x) inG) r3
+      else if F.S && !inG && isSepTok t then
+        let ws2 := r1.takeWhile isFillTok
+        match r1.dropWhile isFillTok with
+        | [] => some (e, toks)
+        | h :: r2 =>
+          if isPrefixTok h || isAtom10 h || isOpenTok h then
+            match parseG F fuel .opd (h :: r2) with
+            | none => none
+            | some (x, r3) => parseG F fuel (.tail (.sep e ws t ws2 x) inG) r3
+          else some (e, toks)
       else some (e, toks)
 
-def exOf (L C : Bool) (toks : List PToken) : Option Ex :=
-  match parseG L C (2 * toks.length + 4) .opd toks with
-  | none => none
-  | some (x, r) =>
-    match parseG L C (2 * toks.length + 4) (.tail x) r with
-    | some (e, []) => some e
-    | _ => none
+def exOf (F : Fl) (toks : List PToken) : Option Ex :=
+  match parseG F (3 * toks.length + 6) (.expr false) toks with
+  | some (e, []) => some e
+  | _ => none
 
-/-- the fragment with groups and nested expressions; `L`: with implicit space lists; `C`: with `,` / infix identifiers -/
-def fragL (L C : Bool) (toks : List PToken) : Bool :=
-  match exOf L C toks with
-  | some e => e.ok L C && decide (e.toks = toks)
+/-- the fragment with brackets and the features `F` -/
+def fragF (F : Fl) (toks : List PToken) : Bool :=
+  match exOf F toks with
+  | some e => e.ok F false && decide (e.toks = toks)
   | none => false
 
-theorem fragL_sound {L C : Bool} {toks : List PToken} (h : fragL L C toks = true) :
-    ∃ e : Ex, e.ok L C = true ∧ e.toks = toks := by
-  unfold fragL at h
-  cases he : exOf L C toks with
+theorem fragF_sound {F : Fl} {toks : List PToken} (h : fragF F toks = true) :
+    ∃ e : Ex, e.ok F false = true ∧ e.toks = toks := by
+  unfold fragF at h
+  cases he : exOf F toks with
   | none => simp [he] at h
   | some e =>
     simp only [he, Bool.and_eq_true, decide_eq_true_eq] at h
     exact ⟨e, h.1, h.2⟩
 
-/-- the fragment with groups and nested expressions -/
-def frag5 (toks : List PToken) : Bool := fragL false false toks
+/-- groups and nested expressions -/
+def frag5 (toks : List PToken) : Bool := fragF ⟨false, false, false⟩ toks
+/-- … and implicit space lists -/
+def frag6 (toks : List PToken) : Bool := fragF ⟨true, false, false⟩ toks
+/-- … and `,` / infix identifiers between two operands -/
+def frag7 (toks : List PToken) : Bool := fragF ⟨true, true, false⟩ toks
+/-- … and separators (blank lines, `;`) -/
+def frag8 (toks : List PToken) : Bool := fragF ⟨true, true, true⟩ toks
 
-/-- the fragment with groups, nested expressions and implicit space lists -/
-def frag6 (toks : List PToken) : Bool := fragL true false toks
-
-/-- the fragment with groups, nested expressions, implicit space lists, and `,` / infix identifiers between two operands -/
-def frag7 (toks : List PToken) : Bool := fragL true true toks
-
-/-- **stages 5, 6**: acceptance, proper tree, reference tree -/
-theorem parse_fragL {L C : Bool} (toks : List PToken) (hf : fragL L C toks = true) (hnum : NumberedFrom 0 toks) :
+/-- **the stage theorems**: acceptance, proper tree, reference tree -/
+theorem parse_fragF {F : Fl} (toks : List PToken) (hf : fragF F toks = true) (hnum : NumberedFrom 0 toks) :
     ∃ r t, parse toks = .ok r ∧ toTree r = some t ∧ refParse Table.gen toks = .ok (toRG (dfOf r.nodes) t) := by
-  obtain ⟨e, hok, rfl⟩ := fragL_sound hf
+  obtain ⟨e, hok, rfl⟩ := fragF_sound hf
   exact parse_ex e hok hnum
-
-theorem parse_frag5 (toks : List PToken) (hf : frag5 toks = true) (hnum : NumberedFrom 0 toks) :
-    ∃ r t, parse toks = .ok r ∧ toTree r = some t ∧ refParse Table.gen toks = .ok (toRG (dfOf r.nodes) t) :=
-  parse_fragL toks hf hnum
-
-theorem parse_frag6 (toks : List PToken) (hf : frag6 toks = true) (hnum : NumberedFrom 0 toks) :
-    ∃ r t, parse toks = .ok r ∧ toTree r = some t ∧ refParse Table.gen toks = .ok (toRG (dfOf r.nodes) t) :=
-  parse_fragL toks hf hnum
-
-theorem parse_frag7 (toks : List PToken) (hf : frag7 toks = true) (hnum : NumberedFrom 0 toks) :
-    ∃ r t, parse toks = .ok r ∧ toTree r = some t ∧ refParse Table.gen toks = .ok (toRG (dfOf r.nodes) t) :=
-  parse_fragL toks hf hnum
 
 end Garnish.Spec
